@@ -25,10 +25,14 @@ RULE = ('Domain A (the protocol): a SubscribableStateMixin subclass with a count
         '(measurement set, log, phase enter/exit, status change, dut_id via TestApi, plug prompt/respond/remove) sets a previously '
         'obtained event.  Oracle: a watcher whose snapshot is stale is never left with an unset event: every watcher terminates '
         '(the scheduler reports the deadlock otherwise, with the wait-for state), every watcher of a run observes COMPLETED.  '
+        'Domain C (change, then notification): a running phase performs one mutation at a time (log through test / framework / plug '
+        'loggers, scalar and dimensioned measurement values) and then lets all other threads run until they block; a watcher that '
+        'renders its snapshot to base types when it takes it must by then hold the change, for EVERY single preemption over all '
+        'yield points of the run (logging enabled, stdlib handler locks virtualised).  '
         'Non-trivial = a schedule in which an update lands between a watcher\'s event registration and its wait (detected from the '
         'trace), i.e. at least one effective preemption inside the protocol methods; distinct by (program, plan).')
 ASSUMPTIONS = ['Preemption at source-line / primitive granularity; C-level atomicity of WeakSet.add / Event.set under the GIL is assumed.',
-               'Framework logging is disabled in scheduled runs (stdlib logging locks are real); log notifications are covered by the single-thread sanity part.']
+               'Framework logging is disabled in the scheduled runs of domains A/B; domain C enables it with scheduler-aware handler locks.']
 
 
 class SchedFailure(Exception):
@@ -224,6 +228,132 @@ def check_whole(case):
   return r, n_points
 
 
+# ------------------------------------------------------------------ domain C: change, THEN notification
+# only what the statement lists: log records and measurement values (attachments / dut_id are not promised a notification)
+ORDERED_STEPS = ['log-info', 'measure', 'log-framework', 'measure-dim', 'log-plug', 'measure-dim-2']
+_ORD = {'ready': False}
+
+
+def ordered_case():
+  """A running phase performs one mutation at a time and then lets every other thread run until it blocks (quiescence); a
+  snapshot-then-wait watcher that renders its snapshot to base types at snapshot time must by then have seen the change,
+  whatever single preemption happened inside the update."""
+  import logging  # pylint: disable=g-import-not-at-top
+
+  def case(s):
+    htf = ohtf.reset_case(cancel_timeout_s=0.05, plug_teardown_timeout_s=0.05)
+    from openhtf.util import data  # pylint: disable=g-import-not-at-top
+    logging.getLogger('openhtf').setLevel(logging.DEBUG)
+    latest = {'view': None, 'n': 0}
+    started = V.VEvent(s)
+    missed = []
+
+    class P(htf.plugs.BasePlug):
+      pass
+
+    def view_has(step, view):
+      rec = view['test_record']
+      logs_ = [l['message'] for l in rec['log_records']]
+      rp = view.get('running_phase_state') or {}
+      if step.startswith('log-'):
+        return ('marker %s' % step) in logs_
+      if step == 'measure':
+        return (rp.get('measurements') or {}).get('m', {}).get('measured_value') == 7
+      if step.startswith('measure-dim'):
+        want = [[1, 10]] if step == 'measure-dim' else [[1, 10], [2, 20]]
+        got = (rp.get('measurements') or {}).get('d', {}).get('measured_value')
+        return got is not None and [list(x) for x in got] == want
+      raise ValueError(step)
+
+    @htf.plug(p=P)
+    @htf.measures(htf.Measurement('m'), htf.Measurement('d').with_dimensions('x'))
+    def body(test, p):
+      started.set()
+      s.sleep(1.0)
+      for step in ORDERED_STEPS:
+        if step == 'log-info':
+          test.logger.info('marker %s', step)
+        elif step == 'log-framework':
+          logging.getLogger('openhtf.core.somewhere').info('marker %s', step)
+        elif step == 'log-plug':
+          p.logger.warning('marker %s', step)
+        elif step == 'measure':
+          test.measurements.m = 7
+        elif step == 'measure-dim':
+          test.measurements.d[1] = 10
+        elif step == 'measure-dim-2':
+          test.measurements.d[2] = 20
+        s.sleep(1.0)       # quiescence: the watcher runs until it waits on a fresh event
+        view = latest['view']
+        if view is None or not view_has(step, view):
+          missed.append(step)
+
+    test = htf.Test(body)
+
+    def watcher():
+      started.wait()
+      state = test.state
+      while state is not None:
+        snap, ev = state.asdict_with_event()
+        latest['view'] = data.convert_to_base_types(snap)
+        latest['n'] += 1
+        if snap['status'] == 'COMPLETED' or getattr(snap['status'], 'name', None) == 'COMPLETED':
+          return
+        ev.wait()
+
+    w = _spawn(watcher, 'watcher0')
+    test.execute(test_start=lambda: 'dut')
+    started.set()
+    w.join()
+    return missed, latest['n']
+
+  return case
+
+
+def check_ordered(case):
+  """case = {'ordered': 1, 'plan': {k: choice}}"""
+  import logging  # pylint: disable=g-import-not-at-top
+  r = CaseResult()
+  vmode.setup()
+  if not _ORD['ready']:
+    V.install_proxies([logging])   # record handlers created inside the run get scheduler-aware locks
+    from openhtf.core import test_record, test_state, measurements  # pylint: disable=g-import-not-at-top
+    from openhtf.util import logs  # pylint: disable=g-import-not-at-top
+    V.monitor_lines(V.code_objects_of(logs.RecordHandler, test_record.TestRecord.add_log_record, test_state.PhaseState, test_state.TestState.notify_update
+                                      if hasattr(test_state.TestState, 'notify_update') else test_state.TestState._asdict,
+                                      measurements.Measurement, measurements.MeasuredValue))
+    _ORD['ready'] = True
+  plan = {int(k): v for k, v in (case.get('plan') or {}).items()}
+  from openhtf.util import logs as _logs  # pylint: disable=g-import-not-at-top
+
+  def main(s):
+    with V.module_locks(_logs):
+      return ordered_case()(s)
+
+  level = logging.getLogger('openhtf').level
+  try:
+    s, res, exc = vmode.run(main, plan=plan, time_limit=1e6, watchdog_s=20.0)
+  finally:
+    logging.getLogger('openhtf').setLevel(level)
+  if s.failure is not None:
+    if s.failure[0] == 'deadlock':
+      r.bad('C18/ordered/watcher-blocked-forever', '%s plan=%r' % (s.failure[1][:500], case.get('plan')))
+      return r, s
+    raise SchedFailure('%s: %s' % (s.failure[0], s.failure[1][:2000]))
+  if exc is not None:
+    r.bad('C18/ordered/raised/%s' % type(exc).__name__, '%r plan=%r' % (exc, case.get('plan')))
+    return r, s
+  missed, n_snaps = res
+  for step in missed:
+    r.bad('C18/ordered/change-not-followed-by-notification/%s' % step,
+          'plan=%r: after %s returned and every other thread had run until it blocked, the snapshot-then-wait watcher (%d snapshots) '
+          'still held a view without the change' % (case.get('plan'), step, n_snaps))
+    break
+  r.nontrivial = bool(s.effective_preemptions)
+  r.classes = ['C:ordered', 'preemptions:%d' % min(len(s.effective_preemptions), 3)]
+  return r, s
+
+
 def sanity_single_thread():
   """Each mutating API sets a previously obtained event (real threads, no scheduler). Returns [(sig, detail)]."""
   out = []
@@ -305,6 +435,9 @@ def plan(tier, seed):
     which = [(seed * 4 + j) % nsh for j in range(4)] if q else range(nsh)
     for sh in which:
       jobs.append({'kind': 'enum', 'name': 'b2.%d.%d' % (ci, sh), 'cfg': CFGS[ci], 'bound': 2, 'shard': sh, 'nshards': nsh, 'complete': not q})
+  nsh = 8
+  for sh in range(nsh):
+    jobs.append({'kind': 'ordered', 'name': 'ordered%d' % sh, 'shard': sh, 'nshards': nsh, 'stride': 1, 'offset': 0})
   for i in range(8):
     jobs.append({'kind': 'hypA', 'name': 'hypA%d' % i, 'hseed': seed * 1000 + i, 'n': 150 if q else 4000})
   for i in range(8):
@@ -359,6 +492,23 @@ def run_job(job, acct):
     if job['complete'] and job['shard'] == 0:
       acct.exhaustive_parts.append('protocol %s w%du%dx%d: all schedules with exactly %d preemption(s) over %d yield points' % (
           cfg['subject'], cfg['watchers'], cfg['updaters'], cfg['updates'], job['bound'], n + 6))
+  elif job['kind'] == 'ordered':
+    r0, s0 = check_ordered({'ordered': 1, 'plan': {}})
+    for sig, detail in r0.violations:
+      (acct.known if sig in known else acct.violation)(sig, {'ordered': 1, 'plan': {}}, detail)
+    i = 0
+    for k in range(job['offset'], s0.k + 2, job['stride']):
+      for c in (0, 1):
+        i += 1
+        if i % job['nshards'] != job['shard']:
+          continue
+        case = {'ordered': 1, 'plan': {str(k): c}}
+        r, _ = check_ordered(case)
+        acct.case(case, r.nontrivial, r.classes)
+        for sig, detail in r.violations:
+          (acct.known if sig in known else acct.violation)(sig, case, detail)
+    if job['shard'] == 0 and job['stride'] == 1:
+      acct.exhaustive_parts.append('ordered updates: every single preemption over %d yield points of a run with %d mutation steps' % (s0.k + 2, len(ORDERED_STEPS)))
   elif job['kind'] == 'hypA':
     hyp.search(acct, protocol_cases(), check_protocol, seed=job['hseed'], max_examples=job['n'], known=known)
   elif job['kind'] == 'hypB':
@@ -384,6 +534,8 @@ def replay(case):
   setup_lines()
   if 'sanity' in case:
     return sanity_single_thread()
+  if 'ordered' in case:
+    return check_ordered(case)[0].violations
   if 'cfg' in case:
     return check_protocol(case).violations
   return check_whole(case)[0].violations
